@@ -26,4 +26,4 @@ Your task: produce {n} DIFFERENT, realistic changes to the repository's source c
   4. comes with a DEMONSTRATION: a small Rust test (e.g. a file to drop into the relevant crate's tests/ directory, or a `#[test]` in a new file) or a small shell script run through the built `yash3` binary (target/debug/yash3) that FAILS with the change and PASSES without it. Verify both directions yourself.
 {"Diversity: this is a second round - other changes to this code have been tried before; do NOT pick the most obvious site. Choose less central mechanisms and files among the relevant code (secondary built-ins, error paths, rarely combined options, boundary values, interactions between two features), and make the two changes as different from each other as possible. " if wave else ""}Do not edit existing tests. Keep each change small (a few lines). Make the changes independent of each other (each applies alone to the unmodified tree).
 
-Deliver, for k = 1..{n}: /tmp/seed-{pid}{W}-out/k/patch.diff (output of `git diff` for that change alone, applying with `git apply` to the unmodified tree), /tmp/seed-{pid}{W}-out/k/demo (the demonstration file(s), plus how to run it in a file RUN.md), /tmp/seed-{pid}{W}-out/k/meta.json with keys: property ("{pid}"), summary (what the change does), needs (what specific circumstances make it manifest), ran (the exact commands you ran and their outcome: tests before/after, demo before/after). When done, restore the worktree to the unmodified state (`git checkout -- .`, remove untracked files you added, and run `cargo clean` in it to free disk space) and reply with a short summary of the {n} changes.""")
+Deliver, for k = 1..{n}: /tmp/seed-{pid}{W}-out/k/patch.diff (output of `git diff` for that change alone, applying with `git apply` to the unmodified tree), /tmp/seed-{pid}{W}-out/k/demo (the demonstration file(s), plus how to run it in a file RUN.md, AND an executable script demo/run_demo.sh that takes the path of a repository worktree as its only argument, copies/builds whatever the demonstration needs inside that worktree (e.g. copies a Rust test into the crate's tests/ directory and runs `cargo test --offline -p <crate> --test <name>`, or runs `cargo build --offline -p yash-cli` and then the shell script through <worktree>/target/debug/yash3), and exits 0 if the demonstration PASSES (property holds) and non-zero if it FAILS; it must work for any worktree path), /tmp/seed-{pid}{W}-out/k/meta.json with keys: property ("{pid}"), summary (what the change does), needs (what specific circumstances make it manifest), ran (the exact commands you ran and their outcome: tests before/after, demo before/after). When done, restore the worktree to the unmodified state (`git checkout -- .`, remove untracked files you added, and run `cargo clean` in it to free disk space) and reply with a short summary of the {n} changes.""")
